@@ -242,6 +242,9 @@ class Run:
         strata = {}
         for name, (q, t) in self.mod.STRATA.items():
             n = q if self.tier == "quick" else t
+            if self.tier == "thorough" and t >= 5000:
+                # sampled (not enumerated) strata are deepened so that a thorough run takes about ten minutes on 16 cores
+                n = int(n * float(getattr(self.mod, "THOROUGH_MULT", 1.0)))
             sc = float(os.environ.get("VERIF_SCALE", "1") or 1)      # debugging aid only
             if sc != 1 and n > 0:
                 n = max(1, int(n * sc))
